@@ -115,10 +115,17 @@ func H_C12_remove() {
 		resident = n - 1
 		vTag("flushed")
 	}
-	if vChoose("add_after", 2) == 1 {
+	switch vChoose("add_after", 3) {
+	case 1:
 		vHNSWAdd(idx, m, vIDs[n], vVec(vName("v", n), 1), 0)
 		resident++
 		vTag("add-after")
+	case 2: // update: the removed id comes back with new content (also when it was the entry point)
+		vHNSWAdd(idx, m, vIDs[t], vVec(vName("v", n), 1), 0)
+		if flushed {
+			resident++
+		}
+		vTag("re-add-of-the-removed-id")
 	}
 	vHNSWReachable(idx)
 	vHNSWSearchChecks(idx, m, resident, []int{1, 4})
